@@ -55,7 +55,7 @@ REQUIRED = dict(
               'aligned:pressure', 'contract-fired']
     + ['contract:scale.' + k for k in _HYDRO] + ['contract:model.' + k for k in _HYDRO],
     classes=['pressure:simple', 'pressure:array', 'pressure:file', 'nlayers:1', 'nlayers:2', 'nlayers:100', 'T:layers',
-             'T:isothermal', 'T:npoint', 'T:guillot', 'units:km', 'scale:irregular-levels', 'stored:hdf5', 'stored:recorded',
+             'T:isothermal', 'T:npoint', 'T:guillot', 'units:km', 'planet-given-in:Rearth', 'planet-given-in:Mearth', 'planet-given-in:km', 'scale:irregular-levels', 'stored:hdf5', 'stored:recorded',
              'perturb:temperature', 'perturb:abundance', 'perturb:pressure', 'perturb:top-layer', 'perturb:bottom-layer',
              'via-setter', 'pressure:array-with-unordered-derived-levels', 'T-dtype:i', 'T-dtype:f',
              'T:integer-valued-layers', 'shared-planet:earlier-model-rejudged', 'model:evaluated-then-rejudged',
@@ -386,6 +386,31 @@ def wl_scale(ctx, rng):
         ctx.observe('via-setter')
         if L.reference(T, lev, mu, planet)[4]:
             planet.calculate_scale_properties(T, lev, mu)
+    if rng.random() < 0.4:
+        # the planet is given in OTHER UNITS through the public set_planet_radius / set_planet_mass (unit strings the
+        # package's own converter accepts); the declaration follows with IAU 2015 nominal values / CODATA G, written down
+        # here and not taken from the package
+        what = ['radius', 'mass'][rng.integers(0, 2)]
+        if what == 'radius':
+            unit, si = [('Rjup', L.R_JUP), ('Rearth', 6.3781e6), ('earthRad', 6.3781e6), ('km', 1e3), ('m', 1.0), ('Rsun', 6.957e8),
+                        ('cm', 1e-2)][rng.integers(0, 7)]
+            target = pr * float(rng.uniform(1.0, 1.4)) * L.R_JUP           # metres
+            planet.set_planet_radius(target / si, unit)
+            L.redeclare(planet, planet_radius=target / L.R_JUP)
+            got_back = planet.get_planet_radius(unit)
+        else:
+            unit, si = [('Mjup', L.M_JUP), ('Mearth', 3.986004e14 / L.G_SI), ('earthMass', 3.986004e14 / L.G_SI), ('kg', 1.0),
+                        ('Msun', 1.3271244e20 / L.G_SI), ('g', 1e-3)][rng.integers(0, 6)]
+            target = pm * float(rng.uniform(1.0, 1.4)) * L.M_JUP           # kilograms
+            planet.set_planet_mass(target / si, unit)
+            L.redeclare(planet, planet_mass=target / L.M_JUP)
+            got_back = planet.get_planet_mass(unit)
+        ctx.observe('planet-given-in:' + unit)
+        ctx.close('planet:value-reads-back-in-the-unit-it-was-given-in', got_back, target / si, 1e-12, unit=unit, what=what)
+        ctx.close('planet:SI-value-of-what-was-given', planet.fullRadius if what == 'radius' else planet.fullMass, target, 2e-5,
+                  unit=unit, what=what)
+        if L.reference(T, lev, mu, planet)[4]:
+            planet.calculate_scale_properties(T, lev, mu)       # judged by the contract from the (re-)declared planet
     ctx.sig('scale', n, round(pm, 6), round(pr, 6), kind, float(lev[0]), float(lev[-1]))
     ctx.sample({'planet': [pm, pr], 'nlayers': n, 'levels': kind, 'units': units, 'z_top': float(z[-1]),
                 'g_surface_top': [float(g[0]), float(g[-1])]})
